@@ -227,8 +227,13 @@ size_t Decode(const char *base64_ptr, size_t base64_len, void *raw_data_ptr, siz
 
     for (size_t r_pos = 0; r_pos < base64_len; r_pos++) {
         char c = base64_ptr[r_pos];
-        if (c == BASE64_PAD)
+        if (c == BASE64_PAD) {
+            //! '='只能是最后一个或最后两个字符，否则视为非法
+            if (r_pos + 2 < base64_len ||
+                (r_pos + 2 == base64_len && base64_ptr[r_pos + 1] != BASE64_PAD))
+                return 0;
             break;
+        }
 
         //! char 可能是有符号的，>=0x80 的字节不能直接用作下标
         uint8_t uc = static_cast<uint8_t>(c);
@@ -276,10 +281,18 @@ size_t Decode(const std::string &base64_str, std::vector<uint8_t> &raw_data)
 
     uint8_t tmp = 0;
     uint8_t s = 0;
+    const size_t base64_len = base64_str.size();
+    size_t r_pos = 0;
 
     for (char c : base64_str) {
-        if (c == BASE64_PAD)
+        if (c == BASE64_PAD) {
+            //! '='只能是最后一个或最后两个字符，否则视为非法
+            if (r_pos + 2 < base64_len ||
+                (r_pos + 2 == base64_len && base64_str[r_pos + 1] != BASE64_PAD))
+                return 0;
             break;
+        }
+        ++r_pos;
 
         //! char 可能是有符号的，>=0x80 的字节不能直接用作下标
         uint8_t uc = static_cast<uint8_t>(c);
